@@ -919,7 +919,7 @@ def compute_correlations_nt(
             #check time ordering
             ft = np.array(first_times)
             check = sorted(first_times)
-            if not np.allclose(ft, check):
+            if list(first_times) != check:
                 continue
             ft_max = ft.max()
             if (ft_max > last_times).any():
